@@ -3258,6 +3258,7 @@ pub fn matrix_programs() -> Vec<(String, Program)> {
     }
     out.extend(boundary_programs());
     out.extend(loop_control_programs());
+    out.extend(for_extreme_programs());
     out.extend(short_circuit_programs());
     out.extend(precedence_programs());
     out.extend(defect_position_programs());
@@ -3338,6 +3339,61 @@ pub fn boundary_programs() -> Vec<(String, Program)> {
                 body.push(asg("r", neg(v("a"))));
                 out.push((format!("bnd-neg-{}-{a}", k.name()), plain(vec![da, tdecl("r", Ty::Int(k), 0)], body)));
             }
+        }
+    }
+    out
+}
+
+/// FOR at the extremes of the control variable's kind: the bound sits on (or one below / above)
+/// the kind's maximum or minimum, so that the terminating increment leaves the kind — for the
+/// 64-bit kinds it leaves `i64` itself (`checked_add` in `Stmt::For`).  The extremes are computed
+/// at run time (see `computed`), bounds and control variable have exactly the same kind.
+pub fn for_extreme_programs() -> Vec<(String, Program)> {
+    let mut out = Vec::new();
+    let n = || VarDecl { name: "n".into(), ty: Ty::Int(IKind::DInt), init: 0, typed_init: false, has_init: true };
+    let inc_n = || asg("n", bin(BinOp::Add, v("n"), lit(1)));
+    for &k in &KINDS {
+        let (lo, hi) = (k.lo(), k.hi());
+        let mut shapes: Vec<(String, i128, i128, Option<i128>)> = Vec::new();
+        if k == IKind::ULInt {
+            // `computed` reaches hi and hi-1 only above i64::MAX; below it everything is writable
+            shapes.push(("top".into(), hi - 1, hi, None));
+            shapes.push(("top-by2".into(), hi - 1, hi, Some(2)));
+            let m = i64::MAX as i128;
+            shapes.push(("i64max".into(), m - 2, m, None));
+            shapes.push(("i64max-by3".into(), m - 2, m, Some(3)));
+            shapes.push(("below-i64max".into(), m - 3, m - 1, Some(2)));
+        } else {
+            for st in [1i128, 2, 3] {
+                shapes.push((format!("top-by{st}"), hi - 2, hi, if st == 1 { None } else { Some(st) }));
+                shapes.push((format!("below-top-by{st}"), hi - 3, hi - 1, Some(st)));
+            }
+            shapes.push(("top-single".into(), hi, hi, None));
+            if k.signed() {
+                for st in [1i128, 2, 3] {
+                    shapes.push((format!("bottom-by{st}"), lo + 2, lo, Some(-st)));
+                    shapes.push((format!("above-bottom-by{st}"), lo + 4, lo + 1, Some(-st)));
+                }
+                shapes.push(("bottom-single".into(), lo, lo, Some(-1)));
+                shapes.push(("full-range-by-huge".into(), lo + 1, hi, Some(hi)));
+            } else {
+                shapes.push(("zero-down".into(), 0, 0, None));
+            }
+        }
+        for (name, a, b, st) in shapes {
+            let (da, mut body) = computed("a", k, a);
+            let (db, sb) = computed("b", k, b);
+            body.extend(sb);
+            let step = st.map(|s| {
+                if s < 0 {
+                    Expr::Un(UnOp::Neg, Box::new(tl(k, -s)))
+                } else {
+                    tl(k, s)
+                }
+            });
+            body.push(Stmt::For("x".into(), v("a"), v("b"), step, vec![inc_n()]));
+            body.push(asg("n", bin(BinOp::Add, v("n"), lit(100))));
+            out.push((format!("forx-{}-{name}", k.name()), plain(vec![tdecl("x", Ty::Int(k), 0), da, db, n()], body)));
         }
     }
     out
